@@ -148,11 +148,11 @@ def subst_consts(table, n, args="", override=None):
 def prepare_spec(chk, table, work):
     """Copy the repository spec into work, applying the table's named rewrites (conformance only)."""
     import shutil
-    src = os.path.join(V.REPO, table["spec"])
+    src = os.path.join(V.REPO, table["spec"])   # an absolute path in the table (e.g. /verif/systems/specs/...) wins
     if not os.path.exists(src):
         raise V.Inconclusive("spec %s not found" % src)
     os.makedirs(work, exist_ok=True)
-    dst = os.path.join(work, os.path.basename(src))
+    dst = os.path.join(work, table.get("spec_as") or os.path.basename(src))
     text = open(src).read()
     for rw in table.get("spec_rewrites", []):
         if rw["from"] not in text:
@@ -165,7 +165,7 @@ def prepare_spec(chk, table, work):
     if table.get("retranslate"):
         # the checked-in TLA+ translation is stale (reported separately by C02's translation check):
         # bind against pcal's translation of the checked-in PlusCal
-        V.pcal(work, os.path.basename(src))
+        V.pcal(work, os.path.basename(dst))
         text = open(dst).read()
     return text
 
@@ -184,13 +184,30 @@ def conformance(chk, pid, table, drv, tier, do_guided=True):
     for cfg in table.get("bfs", {}).get(tier, []):
         n = cfg["n"]
         args = cfg.get("args", "")
-        out = drive(chk, drv, name, n, "bfs", 0, cfg.get("max_states", 300000), args=args, tag="-bfs")
+        cs = subst_consts(table, n, args, cfg.get("consts_override"))
+        # TLC's own graph first: its size bounds the exploration of the Go's graph
+        cfgname = "graph_n%d.cfg" % n
+        open(os.path.join(work, cfgname), "w").write("CONSTANTS\n" + "".join("  %s = %s\n" % kv for kv in cs.items()) +
+                                                      "INIT Init\nNEXT Next\nCHECK_DEADLOCK FALSE\n" +
+                                                      ("CONSTRAINT %s\n" % cfg["constraint"] if cfg.get("constraint") else ""))
+        dot = os.path.join(work, "graph_n%d.dot" % n)
+        r2 = V.tlc(work, module, cfg=cfgname, workers=1, timeout=2400, deadlock=False, dump=dot)
+        chk.add_tlc("%s state graph n=%d" % (name, n), r2)
+        if not r2.ok:
+            continue
+        ns, ne = T.dot_counts(dot)
+        out = drive(chk, drv, name, n, "bfs", 0, 2 * ns + 200, args=args, tag="-bfs")
         g = T.load_graph(out)
         for e in g["errors"]:
             chk.violation("%s:%s:go-error:%s" % (pid, name, e.get("label")),
                           "%s n=%d: generated code failed from a reachable state at label %s: %s" % (name, n, e.get("label"), e.get("msg")), e)
         walks = T.graph_walks(g)
-        cs = subst_consts(table, n, args, cfg.get("consts_override"))
+        tot, keep = 0, []
+        for w in walks:
+            if tot + len(w) > max(20000, 6 * ne):
+                break
+            keep.append(w); tot += len(w)
+        walks = keep
         res = T.validate_runs(work, module, variables, walks, cs, [], [], chunks=8, timeout=2400)
         chk.states += res["states"]; chk.transitions += res["transitions"]; chk.traces += res["accepted"]
         for e in res["errors"]:
@@ -201,22 +218,13 @@ def conformance(chk, pid, table, drv, tier, do_guided=True):
                           "%s n=%d: a committed step of the generated code is not a step of the specification (state %d of a walk of the Go state graph)" % (name, n, rj["state_index"]),
                           {"system": name, "n": n, "pre_state": w[rj["state_index"] - 2] if rj["state_index"] >= 2 else None,
                            "post_state": w[rj["state_index"] - 1] if rj["state_index"] <= len(w) else None})
-        # TLC's own graph
-        cfgname = "graph_n%d.cfg" % n
-        open(os.path.join(work, cfgname), "w").write("CONSTANTS\n" + "".join("  %s = %s\n" % kv for kv in cs.items()) +
-                                                      "INIT Init\nNEXT Next\nCHECK_DEADLOCK FALSE\n" +
-                                                      ("CONSTRAINT %s\n" % cfg["constraint"] if cfg.get("constraint") else ""))
-        dot = os.path.join(work, "graph_n%d.dot" % n)
-        r2 = V.tlc(work, module, cfg=cfgname, workers=1, timeout=2400, deadlock=False, dump=dot)
-        chk.add_tlc("%s state graph n=%d" % (name, n), r2)
-        if r2.ok:
-            ns, ne = T.dot_counts(dot)
-            gs, ge = g["summary"]["states"], g["summary"]["edges"]
-            stats["bfs"].append({"n": n, "tlc": [ns, ne], "go": [gs, ge], "walks": len(walks)})
-            if g["summary"].get("complete") and not res["rejected"] and (ns, ne) != (gs, ge):
-                chk.violation("%s:%s:graph-mismatch:n=%d" % (pid, name, n),
-                              "%s n=%d: the generated code reaches %d states / %d transitions, the specification %d / %d; every Go transition is a spec transition, so the Go cannot take some step the spec prescribes" % (name, n, gs, ge, ns, ne),
-                              {"system": name, "n": n, "go": [gs, ge], "tlc": [ns, ne]})
+        gs, ge = g["summary"]["states"], g["summary"]["edges"]
+        stats["bfs"].append({"n": n, "tlc": [ns, ne], "go": [gs, ge], "walks": len(walks), "go_complete": g["summary"].get("complete")})
+        if not res["rejected"] and ((ns, ne) != (gs, ge) or not g["summary"].get("complete")):
+            chk.violation("%s:%s:graph-mismatch:n=%d" % (pid, name, n),
+                          "%s n=%d: the generated code reaches %s%d states / %d transitions, the specification %d / %d" % (
+                              name, n, "" if g["summary"].get("complete") else "more than ", gs, ge, ns, ne),
+                          {"system": name, "n": n, "go": [gs, ge], "tlc": [ns, ne]})
         if walks:
             chk.sample({"system": name, "kind": "graph walk", "n": n, "first_states": walks[-1][:2]})
     for cfg in table.get("random", {}).get(tier, []):
